@@ -16,7 +16,7 @@ EXTENDS Scenarios
 
 TargetKinds == {"local", "aux1", "aux2", "aux3", "trans", "selfrec", "mutual", "arrayself", "mapself",
                 "auxarrayself", "anonprop", "anonitems", "anonallof", "anonsibling", "sharedparam", "sharedresp", "diamond",
-                "uptrans", "crosstrans", "recdep", "recmap"}
+                "uptrans", "crosstrans", "recdep", "recmap", "anonimport"}
 Shapes      == {"prim", "object", "arrayref", "tuple", "allof", "map", "nested", "ptrarray", "ref"}
 HolderKinds == {"prop", "items", "tuple", "addprops", "additems", "allof", "alias", "opbody", "pathbody",
                 "code", "default", "sharedparam", "sharedresp", "nested", "opnested", "opitems",
@@ -27,7 +27,7 @@ SecondKinds == {"none", "code", "prop2", "same"}
 Collisions  == {"none", "exact", "case", "twoimports", "gennames"}
 
 AuxTargets  == {"aux1", "aux2", "aux3", "trans", "selfrec", "mutual", "auxarrayself", "diamond", "uptrans", "crosstrans", "recdep", "recmap"}
-AnonTargets == {"anonprop", "anonitems", "anonallof", "anonsibling"}
+AnonTargets == {"anonprop", "anonitems", "anonallof", "anonsibling", "anonimport"}
 SharedPtrTargets == {"sharedparam", "sharedresp"}
 
 Str == Leaf("string")
@@ -114,6 +114,12 @@ TargetOf(t, s) ==
     [] t = "anonsibling" -> [ref |-> <<"root", "definitions", "N_1", "properties", "N_3">>,
                        rootdefs |-> [N_1 |-> ObjP([N_3 |-> Body(s, HelperIn("root")), N_4 |-> ObjP([N_19 |-> Str])]), N_7 |-> HelperDef],
                        aux |-> <<>>, params |-> <<>>, resps |-> <<>>]
+    \* the pointer's target is itself the $ref to an imported definition whose name is already taken in the root (N_2): the pointer
+    \* becomes a direct referrer of the deduplicated definition while pointers are resolved
+    [] t = "anonimport" -> [ref |-> <<"root", "definitions", "N_1", "properties", "N_3">>,
+                       rootdefs |-> [N_1 |-> ObjP([N_3 |-> RefTo(<<"aux1", "definitions", "N_2">>), N_4 |-> Int]),
+                                     N_2 |-> Mk([type |-> "integer", format |-> "int32"], <<>>)],
+                       aux |-> [aux1 |-> AuxDoc([N_2 |-> Body(s, HelperIn("aux1")), N_7 |-> HelperDef])], params |-> <<>>, resps |-> <<>>]
     [] t = "anonitems" -> [ref |-> <<"root", "definitions", "N_1", "items">>,
                        rootdefs |-> [N_1 |-> Mk([type |-> "array"], [items |-> Body(s, HelperIn("root"))]), N_7 |-> HelperDef],
                        aux |-> <<>>, params |-> <<>>, resps |-> <<>>]
@@ -225,6 +231,7 @@ ValidCombo(t, s, h, h2, c) ==
   /\ (t \in {"arrayself", "mapself", "auxarrayself"} => s = "prim")           \* the shape is fixed by the kind
   /\ (c # "none" => t \in {"aux1", "aux2", "diamond", "recdep"} /\ RefFreeShape(s))
   /\ (c = "twoimports" => t # "aux3")
+  /\ (t = "anonimport" => RefFreeShape(s) /\ c = "none")
   /\ (c = "gennames" => h = "nested" /\ t \in {"aux1", "diamond"})
   /\ (c # "none" /\ t = "diamond" => RefFreeShape(s))
   /\ (s = "ptrarray" <=> FALSE) \/ (s = "ptrarray" /\ t = "anonprop")
